@@ -204,12 +204,35 @@ func checkC19Inner(c c19Case) *ev.Failure {
 	if f := inproc("copied source tree, other -out", filepath.Join(srcB, c.P.Root().Path()), filepath.Join(dir, "b-output-elsewhere")); f != nil {
 		return f
 	}
+	// the same -out directory spelled in a non-canonical way (in process)
+	{
+		out := filepath.Join(dir, "spelled-out")
+		spelled := []string{
+			dir + "/./spelled-out",
+			dir + "/somewhere/../spelled-out",
+			dir + "/spelled-out//",
+			dir + "//spelled-out/.",
+		}[len(c.Lex)%4]
+		err, p := compileInProcess(root, c.Target, spelled, c.Delim, true)
+		if p != "" || err != nil {
+			return ev.Failf("out-spelling-rejected", "-out %q: %v %s", spelled, err, firstLines(p, 5))
+		}
+		d, _ := digestDir(out)
+		runs = append(runs, run{fmt.Sprintf("-out spelled %q", strings.TrimPrefix(spelled, dir)), out, d})
+	}
 	if c.CLI {
 		// CLI, relative source path, relative -out, different cwd, different HOME/TMPDIR
-		for i, cwd := range []string{filepath.Join(dir, "somewhere"), srcB} {
+		for i, cwd := range []string{filepath.Join(dir, "somewhere"), srcB, filepath.Join(dir, "cli-out2")} {
 			rel, _ := filepath.Rel(cwd, filepath.Join(srcB, c.P.Root().Path()))
 			out := filepath.Join(dir, fmt.Sprintf("cli-out%d", i))
 			relOut, _ := filepath.Rel(cwd, out)
+			switch i {
+			case 1:
+				relOut = "./" + relOut + "/" // a spelling with redundant elements
+			case 2:
+				os.MkdirAll(cwd, 0o755) // -out . from inside the output directory
+				relOut = "."
+			}
 			os.MkdirAll(filepath.Join(dir, "home", fmt.Sprint(i)), 0o755)
 			r := runCLIEnv(cwd, []string{"HOME=" + filepath.Join(dir, "home", fmt.Sprint(i)), "TMPDIR=" + filepath.Join(dir, "home", fmt.Sprint(i))},
 				"-gen", c.Target, "-delim", c.Delim, "-r", "-out", relOut, rel)
